@@ -25,6 +25,7 @@ def tables : Tables where
   handlerErrorClass := Generated.C07.handlerErrorClass
   errorClasses := Generated.C07.errorClasses
   asyncActions := Generated.C07.asyncActions
+  stateActions := Generated.C07.stateActions
 
 /-- what the theorems need of the constant tables -/
 structure TableFacts (T : Tables) : Prop where
